@@ -5,7 +5,7 @@ import scen_buffer
 import ppar
 import scen_fifo
 
-PROPS = ['Props/C08.lean', 'Props/C08Buffer.lean']
+PROPS = ['Props/C08.lean', 'Props/C08Buffer.lean', 'Props/C08Async.lean']
 
 
 def keyfn(case, res, m):
@@ -22,12 +22,45 @@ def run(chk):
                  lambda rng: scen_buffer.gen_case(rng, chk.tier, rng.choice(['lookahead','lookahead','stop'])),
                  n, keyfn=keyfn)
     ppar.sample(chk, 'C08', 10 if chk.tier == 'quick' else 200)
+    async_workers(chk)
     chk.cov['rule'] = ('cases = random (kind in fifo_stream / Stream.parmap / Stream.buffer / AsyncBuffer / SyncIter, n, '
                        'capacity / concurrency / maxsize, flags, failure plan incl. StopRequested, stop position and mode '
                        '(close, del+gc), service durations, chooser, seed) run on the real code under the deterministic '
                        'scheduler; non-trivial = n >= 2 elements and >= 1 context switch; distinct = distinct (case, event trace)')
     chk.trusted += TRUSTED
     chk.assumptions += ASSUMPTIONS
+
+
+def async_workers(chk):
+    """`concurrency` with ASYNC worker functions (`Stream.parmap` -> ParmapperAsync, `AsyncStream.parmap` ->
+    AsyncParmapperAsync / AsyncParmapper): the scenarios of C16 (E2 virtual-time loop, E1 scheduler + cooperative
+    loop) count the invocations under way; here only their C08 monitor counts (the answers are C16's business)."""
+    import scen_afifo
+    import scen_asrv
+    quick = chk.tier == 'quick'
+    rng = chk.rng
+    e2 = []
+    while len(e2) < (300 if quick else 6000):
+        c = scen_afifo.gen_case(rng, chk.tier)
+        if c['kind'] == 'apmap':
+            e2.append(c)
+    res = chk.run_cases('scen_afifo', e2, sched=False)
+    chk.account(scen_afifo, res, 'E2-vloop')
+    chk.collect_monitors(res, {'C08'}, keyfn)
+    e1 = []
+    while len(e1) < (200 if quick else 4000):
+        c = scen_asrv.gen_case(rng, chk.tier, '')
+        if c['kind'] in ('pmap_async', 'apmap_thread'):
+            e1.append(c)
+    res1 = chk.run_cases('scen_asrv', e1, sched=True)
+    chk.account(scen_asrv, res1, 'E1-detsched+cooploop')
+    chk.collect_monitors(res1, {'C08'}, keyfn)
+    d = chk.cov['distribution'].setdefault('async_workers', {})
+    d['AsyncStream.parmap(async worker) cases'] = len(res)
+    d['  of which reached max_running == concurrency'] = sum(1 for c, r in res if r.get('max_running') == c['conc'])
+    d['Stream.parmap(async worker) cases'] = sum(1 for c, _r in res1 if c['kind'] == 'pmap_async')
+    d['  of which reached max_running == concurrency'] = sum(1 for c, r in res1 if c['kind'] == 'pmap_async' and (r.get('max_running') or [0])[0] == c['conc'])
+    d['AsyncStream.parmap(sync worker, threads) cases'] = sum(1 for c, _r in res1 if c['kind'] == 'apmap_thread')
 
 
 TRUSTED = [
@@ -55,8 +88,10 @@ def replay(chk, data):
             print(f'VIOLATION property={chk.prop} replay=(replayed)')
             return 1
         return 0
-    scen = 'scen_buffer' if data['case']['kind'] in ('buffer', 'asyncbuffer', 'synciter') else 'scen_fifo'
-    res = chk.run_cases(scen, [data['case']])
+    kind = data['case']['kind']
+    scen = 'scen_buffer' if kind in ('buffer', 'asyncbuffer', 'synciter') else \
+        'scen_afifo' if kind in ('apmap', 'afifo') else 'scen_asrv' if kind in ('pmap_async', 'apmap_thread') else 'scen_fifo'
+    res = chk.run_cases(scen, [data['case']], sched=(scen != 'scen_afifo'))
     case, r = res[0]
     hits = [m for m in r['monitors'] if m['prop'] == chk.prop]
     print(json.dumps(dict(monitors=r['monitors'], out=r.get('out'), end=r.get('end')), default=str)[:2000])
